@@ -14,7 +14,7 @@ import (
 // C10: (a) histories of Parse / NewTransform / Call on the real proj package, compared with the
 // answers of brand-new transformers; (b) Geom.Transform with a counting fake transformer.
 func init() {
-	families["c10"] = &Family{Run: runC10, Random: randomC10, Sandbox: true, DeadlineMS: 20000}
+	families["c10"] = &Family{Run: runC10, Random: randomC10, Sandbox: true, DeadlineMS: 20000, Prepare: c10Finish}
 }
 
 // definition table; index = definition id of ProjState.tla (1-based)
@@ -145,7 +145,7 @@ func runC10Hist(c map[string]interface{}) []Event {
 			tfDefs = append(tfDefs, [2]int{srDef[a-1], srDef[b-1]})
 			evs = append(evs, e)
 		case "call":
-			e := Event{"ev": "call", "t": a, "k": b}
+			e := Event{"ev": "call", "t": a, "k": b, "panicked": false}
 			px, py, serr := samplePoint(tfDefs[a-1][0], b)
 			if serr != nil {
 				e["res"] = "nosample:" + serr.Error()
@@ -156,6 +156,7 @@ func runC10Hist(c map[string]interface{}) []Event {
 				var err error
 				out := safely(func() { x, y, err = tfs[a-1](px, py) })
 				e["res"] = internXY(x, y, err, out)
+				e["panicked"] = out != "ok"
 			}
 			evs = append(evs, e)
 		}
